@@ -209,6 +209,9 @@ func (c *aeadCrypter) Decrypt(rand io.Reader, ciphertext, additionalData []byte,
 	} else if !ok {
 		return nil, fmt.Errorf("missing expected IV unprotected header")
 	}
+	if len(nonce) != c.AEAD.NonceSize() {
+		return nil, fmt.Errorf("IV must be %d bytes, got %d", c.AEAD.NonceSize(), len(nonce))
+	}
 
 	return c.AEAD.Open(ciphertext[:0], nonce, ciphertext, additionalData)
 }
@@ -311,6 +314,9 @@ func (c *ctrCrypter) Decrypt(rand io.Reader, ciphertext, additionalData []byte, 
 	} else if !ok {
 		return nil, fmt.Errorf("IV not included in header")
 	}
+	if len(iv) != c.Cipher.BlockSize() {
+		return nil, fmt.Errorf("IV must be %d bytes, got %d", c.Cipher.BlockSize(), len(iv))
+	}
 
 	plaintext = ciphertext
 	ctr := cipher.NewCTR(c.Cipher, iv)
@@ -382,10 +388,19 @@ func (c *cbcCrypter) Decrypt(rand io.Reader, ciphertext, additionalData []byte, 
 	} else if !ok {
 		return nil, fmt.Errorf("IV not included in header")
 	}
+	if len(iv) != c.Cipher.BlockSize() {
+		return nil, fmt.Errorf("IV must be %d bytes, got %d", c.Cipher.BlockSize(), len(iv))
+	}
+	if len(ciphertext) == 0 || len(ciphertext)%c.Cipher.BlockSize() != 0 {
+		return nil, fmt.Errorf("ciphertext length must be a non-zero multiple of the block size")
+	}
 
 	plaintext = ciphertext
 	cbc := cipher.NewCBCDecrypter(c.Cipher, iv)
 	cbc.CryptBlocks(plaintext, ciphertext)
+	if padSize := int(plaintext[len(plaintext)-1]); padSize == 0 || padSize > c.Cipher.BlockSize() || padSize > len(plaintext) {
+		return nil, fmt.Errorf("invalid padding")
+	}
 	plaintext = unpad(plaintext)
 
 	return plaintext, err
